@@ -53,14 +53,14 @@ Fixpoint sorted {V} (m : smap V) : Prop :=
 Record colattr := mkCA { ca_type : tok; ca_nullable : bool; ca_default : option tok; ca_comment : option str }.
 Definition attrs_of (c : column) : colattr := mkCA (c_type c) (c_nullable c) (c_default c) (c_comment c).
 
-(* NOT DEFERRABLE, an empty INITIALLY/ON UPDATE/... are what a database assumes when nothing is said *)
+(* an empty INITIALLY / ON UPDATE / ... is what a database assumes when nothing is said *)
 Definition norm_fkopts (o : fkopts) : fkopts :=
   mkFkO (truthy_s (fo_onupdate o)) (truthy_s (fo_ondelete o)) (truthy_s (fo_initially o)) (truthy_s (fo_match o))
-        (truthy_b (fo_deferrable o)).
+        (fo_deferrable o).
 Definition norm_constr (c : constr) : constr :=
   match c with
-  | CUq n t s cs d i => CUq n t s cs (truthy_b d) (truthy_s i)
-  | CFk n t s cs rt rs rcs o => CFk n t s cs rt rs rcs (norm_fkopts o)
+  | CUq n t s cs d i k => CUq n t s cs d (truthy_s i) k
+  | CFk n t s cs rt rs rcs o k => CFk n t s cs rt rs rcs (norm_fkopts o) k
   | _ => c
   end.
 
@@ -81,9 +81,11 @@ Definition named_of (l : list constr) : smap constr :=
   fold_left (fun m c => match constr_name c with Some n => put n (norm_constr c) m | None => m end) l [].
 Definition unnamed_of (l : list constr) : list constr :=
   map norm_constr (filter (fun c => match constr_name c with None => true | Some _ => false end) l).
-(* the state CREATE TABLE leaves behind *)
+Definition idx_of (l : list index) : smap idesc :=
+  fold_left (fun m i => match i_name i with Some n => put n (idesc_of i) m | None => m end) l [].
+(* the state CREATE TABLE (with the CREATE INDEX statements of the table's own indexes) leaves behind *)
 Definition ts_of (t : tdesc) : tstate :=
-  mkTS (cols_of (t_cols t)) (named_of (t_cons t)) [] (t_comment t) (unnamed_of (t_cons t)) (t_prefixes t) (t_kw t).
+  mkTS (cols_of (t_cols t)) (named_of (t_cons t)) (idx_of (t_idx t)) (t_comment t) (unnamed_of (t_cons t)) (t_prefixes t) (t_kw t).
 
 Definition set_cols (ts : tstate) (c : smap colattr) : tstate :=
   mkTS c (ts_cons ts) (ts_idx ts) (ts_comment ts) (ts_unnamed ts) (ts_prefixes ts) (ts_kw ts).
@@ -113,8 +115,8 @@ Definition alter_new_name (a : altercol) : str :=
 
 Definition apply_op (o : op) (A : db) : option db :=
   match o with
-  | CreateTableOp t _ _ =>
-      let td := create_to_table t in
+  | CreateTableOp t _ ci =>
+      let td := create_to_table t ci in
       match lookup (qkey (t_schema td) (t_name td)) A with
       | None => Some (put (qkey (t_schema td) (t_name td)) (ts_of td) A)
       | Some _ => None
@@ -207,7 +209,9 @@ Definition with_table (s : option str) (t : str) (f : tstate -> bool) (A : db) :
    (the stored original, the existing_ values) is what A holds *)
 Definition undoable_op (o : op) (A : db) : bool :=
   match o with
-  | CreateTableOp _ _ _ | AddColumnOp _ _ _ | CreateIndexOp _ | AddConstraintOp _ =>
+  | CreateTableOp t _ _ =>         (* the reversal does not remember a table's own indexes *)
+      match t_idx t with [] => match apply_op o A with Some _ => true | None => false end | _ => false end
+  | AddColumnOp _ _ _ | CreateIndexOp _ | AddConstraintOp _ =>
       match apply_op o A with Some _ => true | None => false end
   | DropTableOp n s _ c p kw rev =>
       with_table s n (fun ts => decb tstate_eq_dec ts (ts_of (drop_to_table n s c p kw rev))) A
